@@ -1187,6 +1187,9 @@ func (e *engine) flow() {
 		check := func(key, want string) {
 			got, ok := last[key]
 			if !ok {
+				if c.VisChanges[w.Node][key] > w.VisAt[key] {
+					e.failf("watcher on node %d (key %q prefix=%v, %d calls) was never called for key %s although what readers of that key see changed %d times after it was registered; the final value is %s", w.Node, w.Key, w.Prefix, calls, key, c.VisChanges[w.Node][key]-w.VisAt[key], want)
+				}
 				return // that key did not change after the registration (other key did)
 			}
 			if got != want {
@@ -1200,12 +1203,8 @@ func (e *engine) flow() {
 				check(PRingKey, model.CanonPDescN(finalP))
 			}
 		} else {
-			if _, ok := last[RingKey]; ok {
-				check(RingKey, model.CanonDescN(finalR))
-			}
-			if _, ok := last[PRingKey]; ok {
-				check(PRingKey, model.CanonPDescN(finalP))
-			}
+			check(RingKey, model.CanonDescN(finalR))
+			check(PRingKey, model.CanonPDescN(finalP))
 		}
 	}
 }
